@@ -342,6 +342,38 @@ func (c *Chain) PrepareScript(signers []neotest.Signer, script []byte) *transact
 	return c.signedTx(script, signers, true)
 }
 
+// ScopedSigner is a signer with an explicit witness scope.
+type ScopedSigner struct {
+	S     neotest.Signer
+	Scope transaction.WitnessScope
+}
+
+// PrepareScoped builds a signed transaction whose signers carry the given witness scopes; the first one
+// is the sender and pays the fees (no separate payer is added).
+func (c *Chain) PrepareScoped(script []byte, signers []ScopedSigner) *transaction.Transaction {
+	tx := transaction.New(script, 0)
+	tx.Nonce = c.nextNonce()
+	tx.ValidUntilBlock = c.BC.BlockHeight() + 1
+	var all []neotest.Signer
+	for _, s := range signers {
+		all = append(all, s.S)
+		tx.Signers = append(tx.Signers, transaction.Signer{Account: s.S.ScriptHash(), Scopes: s.Scope})
+	}
+	neotest.AddNetworkFee(c.T, c.BC, tx, all...)
+	if c.FixedSysFee > 0 {
+		tx.SystemFee = c.FixedSysFee
+	} else {
+		o := c.testRun(tx, c.Now()+1)
+		tx.SystemFee = o.Gas + o.Gas/2 + 1_0000_0000
+	}
+	for _, s := range all {
+		if err := s.SignTx(c.BC.GetConfig().Magic, tx); err != nil {
+			panic(err)
+		}
+	}
+	return tx
+}
+
 // AddBlock persists a block holding txs; its timestamp is last+max(1,tsDelta).
 func (c *Chain) AddBlock(tsDelta uint64, txs ...*transaction.Transaction) *block.Block {
 	last := c.TopBlock()
